@@ -8,6 +8,17 @@ HERE = os.path.dirname(os.path.dirname(os.path.abspath(__file__)))
 
 # pid -> (category, technique, level text, level note, design ref)
 CHECKS = {
+    "C12": (
+        "exploration",
+        "exhaustive enumeration of every shipped .co file + Hypothesis grammar-based generation of Colang 1.0/2.x programs; static closure predicate over the compiled element lists",
+        "Every .co file in the repository (210 today; both Colang versions) and generated programs with nested if/while/when, groups, break/continue and "
+        "flow/action calls are compiled by the real parser/expander; a static predicate then requires that only interpreter primitives remain, that every Goto/"
+        "ForkHead/CatchPatternFailure/Break/Continue target is an indexed Label of the same flow, every MergeHeads has its ForkHead, scopes are closed, and (1.0) "
+        "every relative or absolute jump and branch head lands inside the flow.",
+        "The predicate is written against the element classes `slide` executes; scope closure is per name, not per path; 2.x files that need flows from outside "
+        "the standard library and their own directory are skipped and counted.",
+        "DESIGN.md 4/C12",
+    ),
     "C10": (
         "fault_enumeration",
         "Hypothesis-generated Colang 2 programs with one injected erroneous statement at every enumerated/drawn position + immediately failing activated flows; oracle = deterministic step budget, canary flows, ColangError watcher, C09 invariants, through the real RuntimeV2_x.process_events",
